@@ -201,7 +201,9 @@ pub fn finish(spec: &Spec, tier: &str, seed: u64, wall_s: f64, rep: &WorkerRepor
     let evdir = std::env::var("VERIF_EVIDENCE").map(PathBuf::from).unwrap_or_else(|_| root().join("evidence"));
     let _ = std::fs::create_dir_all(&evdir);
     let evpath = evdir.join(format!("{}.json", spec.prop));
-    let observed_enough = rep.evaluations >= 1 && distinct >= spec.min_nontrivial.max(2);
+    // "held on what was observed" needs observations: a run in which more cases could not be judged
+    // than were judged is inconclusive as a whole
+    let observed_enough = rep.evaluations >= 1 && distinct >= spec.min_nontrivial.max(2) && rep.inconclusive * 2 <= rep.evaluations;
     if !fresh.is_empty() {
         let _ = std::fs::write(&evpath, serde_json::to_string_pretty(&ev).unwrap());
         println!("RESULT property={} verdict=violated evaluations={} distinct_nontrivial={} wall_s={:.1}", spec.prop, rep.evaluations, distinct, wall_s);
